@@ -46,6 +46,7 @@ func (w *Worker) runPath(prefix []Decision) {
 		status = r.status
 		switch r.status {
 		case "assume":
+		case "cut":
 		case "violation":
 		case "unsupported":
 			ex.noteInconclusive(r.msg)
@@ -177,6 +178,8 @@ func (p *Path) finish(status string) {
 		}
 	case "assume":
 		ex.stats.Assumed++
+	case "cut":
+		ex.stats.Cut++
 	}
 	for _, n := range p.notes {
 		ex.notes[n]++
